@@ -92,9 +92,13 @@ def gen_workload(tape, tier):
         if special < 0.04:
             s = int(rng.integers(0, clen))
             e = s  # zero-width
-        elif special < 0.10:
+        elif special < 0.02 + 0.04:
             s = int(rng.integers(max(0, clen - 300), clen))
             e = clen + int(rng.integers(1, 400))  # past the contig end
+        elif special < 0.10:
+            # a bin of millions of bases (far past the contig end): depths below 2**-20
+            s = int(rng.integers(0, clen))
+            e = s + int(rng.integers(1 << 20, 1 << 26))
         elif special < 0.13:
             s = 0
             e = int(rng.integers(1, min(clen, 400) + 1))  # at the contig start
